@@ -19,7 +19,7 @@ from props import _hlg_util as U
 PROP = "C19"
 READY = True
 DRIVER = "dm_hlg"
-LEAN_MODULES = ["DaskModel.Props.C19"]
+LEAN_MODULES = ["DaskModel.Props.C19", "DaskModel.Props.C19xUnifyGlue"]
 TABLES = ["UfuncTable"]
 CASE_TIMEOUT_S = 60   # the first case of a run also pays the import of dask.array (slow on a loaded machine)
 LEVEL_TEXT = ("Lean 4 theorems over a transliteration of broadcast_shapes, common_blockdim, unify_chunks and the block plan "
@@ -33,7 +33,11 @@ LEVEL_TEXT = ("Lean 4 theorems over a transliteration of broadcast_shapes, commo
               "size and every output position the element blockwise + NumPy-in-the-block read from an argument is the "
               "element NumPy's broadcasting reads: position i, or 0 along a size-1 axis), `ufunc_names_agree` over the ufunc "
               "table extracted from dask/array/ufunc.py, `commonBlockdim_zero`. VALIDATED, not proved: that the Lean NumPy rule "
-              "is numpy.broadcast_shapes (diffed exhaustively over small shapes), the unify_chunks glue around common_blockdim. "
+              "is numpy.broadcast_shapes (diffed exhaustively over small shapes), how unify_chunks picks the candidates it hands to "
+              "common_blockdim. Extension (Props/C19xUnifyGlue): the rechunking glue of unify_chunks — `unifyChunks_shapes`/"
+              "`newChunks_shape` (when unify_chunks does not raise every argument keeps its shape), `newChunks_axis` (an axis "
+              "longer than 1 is rechunked to exactly chunkss[j]; an axis of length <= 1 whose unified dimension has another "
+              "length stays the single chunk (size,)), for every table of unified chunks. "
               "Element values, dtype promotion and the ufunc kernels are not in the theorems: they are compared with NumPy "
               "(values and dtype) on random programs and on the extracted ufunc table, incl. where=/out=.")
 LEVEL_NOTE = ("Trusted: Lean kernel + standard axioms; the model, tied by function-level differential tests "
@@ -633,8 +637,94 @@ def _leaves(p, acc):
     return acc
 
 
+# ------------------------------------------------------------------------------------------------
+# the unify_chunks glue as elemwise uses it (Props/C19xUnifyGlue: newChunks_shape / newChunks_axis / unifyChunks_shapes)
+# ------------------------------------------------------------------------------------------------
+
+def _glue_clauses(ctx, who, inds, olds, cs, news):
+    """the conclusions of `unifyChunks_shapes` and `newChunks_axis`, read off an (ok) answer of unify_chunks"""
+    for ind, old, new in zip(inds, olds, news):
+        if len(ind) != len(old) or len(new) != len(old):
+            ctx.fail(who + ": premise `len(ind) == ndim` broken", observed=[ind, old, new])
+            continue
+        for s, o, nw in zip(ind, old, new):
+            n = sum(o)
+            if sum(nw) != n:
+                ctx.fail(who + ": newChunks_shape: an axis changed its length", observed=[o, nw])
+            if n > 1:
+                ctx.branch("glue-axis-common")
+                if nw != cs[s]:
+                    ctx.fail(who + ": newChunks_axis: axis longer than 1 not rechunked to chunkss[j]", observed=[o, nw, cs[s]])
+            elif sum(cs[s]) != n:
+                ctx.branch("glue-axis-broadcast")
+                if nw != [n]:
+                    ctx.fail(who + ": newChunks_axis: broadcast axis is not the single chunk (size,)", observed=[o, nw, cs[s]])
+            else:
+                ctx.branch("glue-axis-short-same-length")
+
+
+def case_unifyglue(ctx, inp):
+    import warnings
+    import numpy as np
+    import dask.array as da
+    from dask.array.core import unify_chunks
+    olds = [[list(c) for c in a] for a in inp["chunks"]]
+    arrs = [da.zeros(tuple(sum(c) for c in a), chunks=tuple(tuple(c) for c in a), dtype="i1") for a in olds]
+    # the index strings elemwise builds: `tuple(range(a.ndim))[::-1]`
+    inds = [list(range(len(a)))[::-1] for a in olds]
+    flat = []
+    for x, ind in zip(arrs, inds):
+        flat += [x, tuple(ind)]
+    with warnings.catch_warnings():
+        warnings.simplefilter("ignore")
+        try:
+            chunkss, outs = unify_chunks(*flat)
+            impl = [Sym("ok"), sorted([int(k), [int(c) for c in v]] for k, v in chunkss.items()),
+                    [[[int(c) for c in ax] for ax in o.chunks] for o in outs]]
+        except ValueError:
+            impl = [Sym("raised")]
+        m = ctx.lean(Sym("unify"), [[i, o] for i, o in zip(inds, olds)])
+        if _ok(m):
+            m = [Sym("ok"), sorted(m[1][0]), m[1][1]]
+        ctx.eq("unify_chunks (elemwise index strings)", m, impl)
+        if impl[0] != "ok":
+            ctx.branch("glue-raises")
+            return
+        _glue_clauses(ctx, "dask", inds, olds, {k: v for k, v in impl[1]}, impl[2])
+        if _ok(m):
+            _glue_clauses(ctx, "model", inds, olds, {k: v for k, v in m[1]}, m[2])
+        # what elemwise makes of it: the lazy result has NumPy's broadcast shape and, along every axis, the unified chunks
+        if len(arrs) >= 2:
+            r = arrs[0]
+            for x in arrs[1:]:
+                r = da.add(r, x)
+            want = tuple(np.broadcast_shapes(*[x.shape for x in arrs]))
+            if tuple(r.shape) != want:
+                ctx.fail("elemwise: lazy shape is not NumPy's broadcast shape", observed=[list(r.shape), list(want)])
+            if len(arrs) == 2:
+                cs = {k: v for k, v in impl[1]}
+                got = [[int(c) for c in ax] for ax in r.chunks]
+                exp = [cs[s] for s in range(r.ndim)][::-1]
+                if got != exp:
+                    ctx.fail("elemwise: chunks of the lazy result are not the unified chunks", observed=[got, exp])
+                ctx.branch("glue-elemwise-chunks")
+    if any(nw != o for new, old in zip(impl[2], olds) for nw, o in zip(new, old)):
+        ctx.branch("glue-rechunked")
+
+
+def gen_unifyglue(rng):
+    nd = rng.randint(1, 3)
+    base = [rng.choice([0, 1, 2, 3, 4, 5, 6]) for _ in range(nd)]
+    ops = []
+    for _ in range(rng.randint(2, 3)):
+        sh = [d if rng.random() < 0.7 else 1 for d in base][rng.randint(0, nd - 1):]
+        ops.append(U.rand_chunks(rng, sh, zeros=0.15))
+    return {"chunks": ops}
+
+
 CASES = {"bshapes": case_bshapes, "cbd": case_cbd, "unify": case_unify, "argpos": case_argpos, "elem": case_elem,
-         "ufunc": case_ufunc, "allchunks": case_allchunks, "outname": case_outname}
+         "ufunc": case_ufunc, "allchunks": case_allchunks, "outname": case_outname,
+         "unifyglue": case_unifyglue}
 
 
 def _rand_shape(rng, nd=None):
@@ -696,6 +786,8 @@ def generate(ctx):
         yield "cbd", {"blockdims": bds, "as_set": rng.random() < 0.7}
     for _ in range(ctx.n(300, 3000)):
         yield "unify", gen_unify(rng, bad=rng.random() < 0.1)
+    for _ in range(ctx.n(120, 1200)):
+        yield "unifyglue", gen_unifyglue(rng)
     for _ in range(ctx.n(150, 1500)):
         n = rng.randint(0, 7)
         t = rng.random()
